@@ -443,7 +443,7 @@ def run(tier: str, rng: random.Random, proof_ok: bool) -> dict:
                 starts = [ln.lstrip(" ") for ln in m1.split("\n")]
                 pos, lost = 0, None
                 for lab in message_labels(inv):
-                    nxt = next((j for j in range(pos, len(starts)) if starts[j].startswith(lab)), None)
+                    nxt = next((j for j in range(pos, len(starts)) if lab in starts[j]), None)   # (a nested entry's line may repeat its parent's label first)
                     if nxt is None:
                         lost = lab
                         break
